@@ -183,5 +183,9 @@ def run(ctx, rep) -> None:
     rep.attempt("stateful_cursors_advance", stateful_cursors_advance, ctx, rep, "C07.3")
     rep.attempt("_dist_remask", _dist_remask, ctx, rep, "C07.3", FSDP, 2)
     rep.attempt("sibling_pairs", sibling_pairs, ctx, rep, "C07.3", [p for p in dist_pairs() if HSDP in p[:2]])
+    from .c14 import buffer_layout_semantics, split_semantics
+
+    rep.attempt("split_semantics", split_semantics, ctx, rep, "C07.3", [HSDP])
+    rep.attempt("buffer_layout_semantics", buffer_layout_semantics, ctx, rep, "C07.3", [HSDP])
     rep.attempt("block_keys", block_keys, ctx, rep, "C07.4")
     rep.assume("maximality/validity of recovered blocks (C15), exactly-once element coverage across ranks, numerical equality with the serial optimizer and the index conversion in compile_fsdp_parameter_metadata are NOT decided")
